@@ -29,12 +29,15 @@ BEHAVIOURS = {
 METHODS = ['ret', 'rpc', 'exc', 'plain', 'v.view', 'nope', 'w.scratch', 'w.scratch']
 
 
-def build_text(elements: List[Dict[str, Any]]) -> str:
+def build_text(elements: List[Dict[str, Any]], id_style: str = 'ascending') -> str:
+    """ids in request order: ascending integers, descending integers, or strings and integers mixed (request order is the only order
+    the response array may follow, whatever the ids look like)"""
     doc = []
+    n = len(elements)
     for i, el in enumerate(elements):
         o: Dict[str, Any] = {'jsonrpc': '2.0', 'method': el['method'], 'params': {'tag': i}}
         if el['kind'] == 'call':
-            o['id'] = i + 1
+            o['id'] = i + 1 if id_style == 'ascending' else (n - i) * 7 if id_style == 'descending' else [f'z{i}', 100 - i, f'a{i}', i][i % 4]
         doc.append(o)
     return json.dumps(doc)
 
@@ -68,7 +71,7 @@ class C10(Check):
     thorough_examples = 400
     chunk = 60
     rule = (
-        "cases: batches of 2..4 elements, each a call or notification to a coroutine that returns / raises a protocol error / raises an "
+        "cases: batches of 2..4 elements (call ids ascending, descending or strings and integers mixed in request order), each a call or notification to a coroutine that returns / raises a protocol error / raises an "
         "exception (0..2 suspension points each), a plain non-coroutine function, an async class based view method (with constructor context, and context-less using self as per-request scratch space) or an unknown method; "
         "optional middleware and generic error handler (identity / annotating / replacing, plus an optional handler for the protocol error's code) with 0..1 suspension points each; concurrent_batch on / off. For every case ALL "
         "interleavings are enumerated by DFS over 'which parked coroutine resumes next' under a harness-owned event-loop scheduler (up to "
@@ -112,10 +115,11 @@ class C10(Check):
             return spec
 
         return st.builds(
-            lambda c, els, mw, eh, ek, e7: fit({'concurrent': c, 'elements': els, 'mw_suspend': mw, 'eh_suspend': eh, 'eh_kind': ek, 'eh_code7': e7,
-                                                'schedule': 'all'}),
+            lambda c, els, mw, eh, ek, e7, ids: fit({'concurrent': c, 'elements': els, 'mw_suspend': mw, 'eh_suspend': eh, 'eh_kind': ek, 'eh_code7': e7,
+                                                     'schedule': 'all', 'id_style': ids}),
             st.booleans(), st.lists(s_el, min_size=2, max_size=4), st.sampled_from([None, None, 0, 1]), st.sampled_from([None, None, 0, 1]),
             st.sampled_from(['identity', 'annotate', 'annotate', 'replace']), st.sampled_from([None, None, 'annotate', 'replace']),
+            st.sampled_from(['ascending', 'descending', 'mixed']),
         )
 
     def corpus(self):
@@ -130,6 +134,10 @@ class C10(Check):
         out.append({'concurrent': True, 'elements': [c('rpc', 1), c('rpc', 1), c('exc', 1), c('exc', 0), c('nope', 0), c('nope', 0)], 'mw_suspend': None,
                     'eh_suspend': 0, 'eh_kind': 'annotate', 'eh_code7': 'replace', 'schedule': 'all'})
         out.append({'concurrent': True, 'elements': [c('ret', 2), c('rpc', 2), c('exc', 2), c('ret', 2)], 'mw_suspend': None, 'eh_suspend': None, 'schedule': 'all'})
+        for conc in (True, False):
+            for ids in ('descending', 'mixed'):
+                out.append({'concurrent': conc, 'elements': [c('ret', 1), c('ret', 0), c('rpc', 1), c('ret', 0, 'notification')], 'mw_suspend': None, 'eh_suspend': None,
+                            'schedule': 'all', 'id_style': ids})
         out.append({'concurrent': True, 'elements': [c('w.scratch', 2), c('w.scratch', 1), c('w.scratch', 2, 'notification')], 'mw_suspend': None, 'eh_suspend': None, 'schedule': 'all'})
         return out
 
@@ -167,7 +175,7 @@ class C10(Check):
         return result, exc, counts, list(hm.RT.log), flight, s.trace
 
     def run_case(self, spec: Any) -> Outcome:
-        text = build_text(spec['elements'])
+        text = build_text(spec['elements'], spec.get('id_style', 'ascending'))
         mws_model = [] if spec.get('mw_suspend') is None else [{'kind': 'pass'}]
         exp_doc, exp_executions, _events, _classes = stack.expect_stack(text, REGISTRY, BEHAVIOURS, mws_model, handler_table(spec))
         discs: List[Disc] = []
